@@ -266,6 +266,12 @@ def run_check(chk, tier, seed, replay=None):
         violations.extend(chk["collect"](jobs, results))
         crashes = [(j, rc) for j, rc in crashes if not j.get("own_artifacts")]
     violations.extend(regress_hits)
+    for j in timeouts:
+        # a worker that exhausts a budget twenty times its normal running time is inconclusive in itself; the case it was executing is a
+        # candidate (a hang inside the library), decided by the triage below: the case must fail, or hang again, in three fresh processes
+        cand = os.path.join(j["faildir"], "current.case")
+        if os.path.exists(cand) and not j.get("own_artifacts"):
+            violations.append((f"worker hit the time budget while executing this case: {' '.join(j['argv'][:4])}", cand))
     for j, rc in crashes:
         # a harness process died (signal / sanitizer abort): the per-case file written before execution is the reproduction
         cand = os.path.join(j["faildir"], "current.case")
